@@ -366,6 +366,64 @@ var scenarioTable = map[string]func(s *sc){
 		s.inject(2, s.adv.mkVC(voteD{ht: protocol.LEAN_HELIX_VIEW_CHANGE, inst: clusterInstance, h: 1, v: 2, sender: s.cl.ids[1], proof: pr}, y), "vc_proof_split")
 		s.flush(any)
 	},
+	// C04: Byzantine n0 leads views 0 and 4.  It proposes valid B in view 0, collects the PREPAREs, and in view 4 sends a
+	// NEW_VIEW for a consumer-rejected block X whose "proof" splices its own PREPREPARE reference for X with the PREPAREs for B
+	"spliced_proof_for_rejected_block": func(s *sc) {
+		s.startNodes()
+		b := s.adv.newBody(s.run, 1, false)
+		for _, i := range []int{1, 2, 3} {
+			s.inject(i, s.adv.mkPP(ref(protocol.LEAN_HELIX_PREPREPARE, 1, 0, b), s.cl.ids[0], "", b), "pp_leader")
+		}
+		s.dropAll(any) // PREPAREs for (0, B) are captured, never delivered: nobody is prepared
+		for round := 0; round < 4; round++ {
+			for _, i := range []int{1, 2, 3} {
+				s.timeout(i)
+			}
+			s.dropAll(any)
+		}
+		x := s.adv.newBody(s.run, 1, true) // rejected by every correct node's validator
+		pr := proofD{present: true, pp: ref(protocol.LEAN_HELIX_PREPREPARE, 1, 0, x), ppBy: s.cl.ids[0], p: ref(protocol.LEAN_HELIX_PREPARE, 1, 0, b),
+			pBy: []primitives.MemberId{s.cl.ids[1], s.cl.ids[2], s.cl.ids[3]}}
+		votes := append(s.genuineVotesFor(1, 4), s.adv.voteBuilder(voteD{ht: protocol.LEAN_HELIX_VIEW_CHANGE, inst: clusterInstance, h: 1, v: 4, sender: s.cl.ids[0], proof: pr}))
+		d := nvD{inst: clusterInstance, h: 1, v: 4, sender: s.cl.ids[0], votes: votes, pp: ref(protocol.LEAN_HELIX_PREPREPARE, 1, 4, x), ppBy: s.cl.ids[0]}
+		for _, i := range []int{1, 2, 3} {
+			s.inject(i, s.adv.mkNV(d, x), "nv_byzproof_split")
+		}
+		s.flush(kinds("P"))
+		s.flush(kinds("C"))
+	},
+	// C12: a valid NEW_VIEW whose block (which travels outside the signed part) was stripped, with a consumer that does
+	// not object to a missing block; then PREPARE and COMMIT quorums for its hash
+	"new_view_block_stripped_lenient_consumer": func(s *sc) {
+		s.cl.lenient = true
+		s.startNodes()
+		s.dropAll(any)
+		for _, i := range []int{0, 2, 3} {
+			s.timeout(i)
+		}
+		votes := append(s.genuineVotesFor(1, 1), s.byzVote(1, 1, 1))
+		s.dropAll(kinds("VC"))
+		b := s.adv.newBody(s.run, 1, false)
+		d := nvD{inst: clusterInstance, h: 1, v: 1, sender: s.cl.ids[1], votes: votes, pp: ref(protocol.LEAN_HELIX_PREPREPARE, 1, 1, b), ppBy: s.cl.ids[1]}
+		for _, i := range []int{0, 2, 3} {
+			s.inject(i, s.adv.mkNV(d, nil), "mut_nv_block_removed")
+		}
+		s.flush(kinds("P"))
+		for _, n := range s.honest() {
+			s.inject(n.idx, s.adv.mkP(ref(protocol.LEAN_HELIX_PREPARE, 1, 1, b), s.cl.ids[1], ""), "p_byz_or_outsider")
+		}
+		s.flush(kinds("P", "C"))
+		for _, n := range s.honest() {
+			s.inject(n.idx, s.adv.mkC(ref(protocol.LEAN_HELIX_COMMIT, 1, 1, b), s.cl.ids[1], "", ""), "c_byz_or_outsider")
+		}
+		s.flush(kinds("C"))
+		// the node must still work: next view with a proper proposal
+		for _, i := range []int{0, 2, 3} {
+			s.timeout(i)
+		}
+		s.inject(2, s.adv.mkVC(voteD{ht: protocol.LEAN_HELIX_VIEW_CHANGE, inst: clusterInstance, h: 1, v: 2, sender: s.cl.ids[1]}, nil), "vc_no_proof")
+		s.flush(any)
+	},
 	// C10: a second, fully valid NEW_VIEW for the view the node is already in, proposing another block
 	"second_new_view_same_view": func(s *sc) {
 		s.startNodes()
@@ -431,7 +489,7 @@ func cmdScenarios(args []string) int {
 			continue
 		}
 		byz := []int{1}
-		if name == "vote_with_block_but_no_proof" {
+		if name == "vote_with_block_but_no_proof" || name == "spliced_proof_for_rejected_block" {
 			byz = []int{0}
 		}
 		if name == "lagging_node_drains_cached_height" {
